@@ -7,5 +7,5 @@ S="$(mktemp -d /tmp/wharf-try-XXXXXX)"
 trap 'rm -rf "$S"' EXIT
 rsync -a --exclude .git /repo/ "$S/"
 (cd "$S" && patch -p1 -s --no-backup-if-mismatch < "$PF") || { echo "patch failed"; exit 3; }
-/tmp/wc-dev -prop all -repo "$S" -verif "$VERIF" 2>&1 | grep -v "^== .*not-discharged=0$"
+"${WCDEV:-/tmp/wc-dev}" -prop all -repo "$S" -verif "$VERIF" 2>&1 | grep -v "^== .*not-discharged=0$"
 echo "rc=${PIPESTATUS[0]}"
